@@ -169,7 +169,10 @@ def run_case(case, ctx):
             oracle = m.FactorGraph(dom, cliques, t0, convex=False, iters=case['sweeps'])
             regions = list(cliques)
         else:
-            oracle = m.RegionGraph(dom, cliques, t0, convex=(kind == 'norm_rg_convex'), iters=case['sweeps'],
+            minimal = not (kind != 'norm_rg_convex' and case['pot_seed'] % 4 == 1)   # the saturated (minimal=False) message sets too
+            if not minimal:
+                ctx.tag('minimal=False')
+            oracle = m.RegionGraph(dom, cliques, t0, minimal=minimal, convex=(kind == 'norm_rg_convex'), iters=case['sweeps'],
                                    convergence=0.0 if kind == 'norm_rg_convex' else 1e-3, damping=case['damping'])
             regions = list(oracle.cliques)
         if late_total:
